@@ -229,6 +229,13 @@ class Interp:
                     if self.ret is not None:
                         return
                     continue
+                if nonzero and not s.orelse and s.body and isinstance(s.body[-1], ast.Return):
+                    # if w != 0: <rule>; return <kept>        followed by        return <empty>   (the zero vector keeps nothing)
+                    saved = dict(self.env)
+                    self.block(s.body)
+                    self.env = saved
+                    self.zero_tail = True
+                    continue
                 if not (zero and empty):
                     # any other conditional: both arms are followed; each return met is judged on its own
                     saved = dict(self.env)
@@ -257,6 +264,9 @@ class Interp:
                     self.env[t.value.id] = Unknown(f'store `{norm(s)[:50]}` not recognised')
                     continue
             if isinstance(s, ast.Return):
+                if getattr(self, 'zero_tail', False) and s.value is not None and \
+                        norm(s.value).startswith(('np.array([]', 'np.zeros(0', 'np.empty(0', '[]')):
+                    return
                 self.rets.append((s, dict(self.env)))
                 self.ret = s
                 return
